@@ -14,7 +14,10 @@ def probe_menu(w):
         step.StoreData(1), step.DeleteIfInvalid(1, hashlib.md5(c1).hexdigest(), "md5", len(c1) + 1, True, ", wrong size"),
         # the instance first serves the *other* pid (the follow-up history then asks about both)
         step.Retrieve(1), step.RetrieveMeta(1, None), step.HexDigest(1, "sha256", "sha256"), step.StoreObj(1, 0),
-        step.StoreMeta(1, 1, None), step.Delete(1))]
+        step.StoreMeta(1, 1, None), step.Delete(1),
+        # ... or a call that is rejected for its validation data (the instance must be as good as new afterwards)
+        step.StoreObj(0, 1, size=len(c1) + 1, invalid=True, tagname=", wrong size"),
+        step.StoreObj(0, 1, checksum="0" * 32, calgo="md5", invalid=True, tagname=", wrong checksum"))]
 
 
 PROBE_ARGS = dict(pids=[P_A, P_AB], contents=[C_ONE, C_MULTI], formats=[None], fake_cid=False, sym_dirs=False)
@@ -27,13 +30,25 @@ MINE = {"history:results-depend-on-earlier-calls-on-the-instance", "store-state:
 def main(tier, replay_payload=None):
     w_args = universe(tier)
     if replay_payload is not None:
+        if replay_payload.get("part") == "long-cid":
+            la = dict(universe(tier, formats=False), fake_cid="long")
+            return make_replayer(la, lambda w: object_menu(w, with_invalid=False, with_reads=False))(replay_payload)
         if replay_payload.get("probe"):
             return make_replayer(PROBE_ARGS, probe_menu)(replay_payload)
         return make_replayer(w_args, menu_fn)(replay_payload)
     run = report.Run("C05", tier, technique="pathsym: one inductive step, z3-discharged Inv closure and model equality")
-    run.replayer = lambda p: (make_replayer(PROBE_ARGS, probe_menu) if p.get("probe") else make_replayer(w_args, menu_fn))(p)
+    def replayer(p):
+        if p.get("part") == "long-cid":
+            la = dict(universe(tier, formats=False), fake_cid="long")
+            return make_replayer(la, lambda w: object_menu(w, with_invalid=False, with_reads=False))(p)
+        return (make_replayer(PROBE_ARGS, probe_menu) if p.get("probe") else make_replayer(w_args, menu_fn))(p)
+    run.replayer = replayer
     res = step.explore_steps(w_args, menu_fn)
     collect(run, res, MINE, w_args, menu_fn)
+    # the never-stored cid once more, longer than any digest (object calls only)
+    long_args = dict(universe(tier, formats=False), fake_cid="long")
+    long_menu = lambda w: object_menu(w, with_invalid=False, with_reads=False)
+    collect(run, step.explore_steps(long_args, long_menu), MINE, long_args, long_menu, part="long-cid")
     before = set(run.failures)
     collect(run, step.explore_steps(PROBE_ARGS, probe_menu), MINE, PROBE_ARGS, probe_menu)
     for sig in set(run.failures) - before:
